@@ -776,6 +776,18 @@ func runC09(res *Result, tier string, seed int64, replay string) {
 					find(d).Set("mj-class", "m2 m1")
 				}), find, attr, v1, "mj-class(earlier-empty)>tag-default", informative)
 			}
+			// a value that is one blank is a value: at the class level it wins over the tag default and over mj-all exactly as it
+			// would written on the element (no level may "tidy" it into an empty one on its own)
+			if attr != "name" {
+				noop(withHead(func(at, d *Node) {
+					at.Kids = append(at.Kids, mk("mj-class", "name", "m1", attr, " "), mk("mj-all", attr, v2))
+					find(d).Set("mj-class", "m1")
+				}), find, attr, " ", "mj-class(blank)>mj-all", informative)
+				noop(withHead(func(at, d *Node) {
+					at.Kids = append(at.Kids, mk("mj-class", "name", "m1", attr, v1), mk("mj-class", "name", "m2", attr, " "), mk(tag, attr, v2))
+					find(d).Set("mj-class", "m1 m2")
+				}), find, attr, " ", "mj-class(later-blank)>tag-default", informative)
+			}
 			// three levels at once: the class wins over the tag default and over mj-all — also when mj-all carries the very value
 			// of the class (a store that drops "redundant" entries must not fall through to the level in between), and with three
 			// different values
